@@ -1,6 +1,7 @@
 package nodis
 
 import (
+	"sort"
 	"sync/atomic"
 	"time"
 
@@ -31,6 +32,28 @@ func (tx *Tx) lockKey(key string) *metadata {
 // record when there is no such key.
 func (tx *Tx) rLockKey(key string) *metadata {
 	return tx.acquire(key, false, false)
+}
+
+// lockKeys locks every key a multi-key command is going to use, in one global order (by name), so
+// that two commands whose key sets overlap can never wait for each other in a cycle. Keys named
+// in write are write-locked, the others read-locked; missing keys are held through placeholders,
+// so that they stay missing until the command is done.
+func (tx *Tx) lockKeys(write []string, read ...string) {
+	mode := make(map[string]bool, len(write)+len(read))
+	for _, key := range read {
+		mode[key] = false
+	}
+	for _, key := range write {
+		mode[key] = true
+	}
+	keys := make([]string, 0, len(mode))
+	for key := range mode {
+		keys = append(keys, key)
+	}
+	sort.Strings(keys)
+	for _, key := range keys {
+		tx.acquire(key, mode[key], true)
+	}
 }
 
 // lookup returns the record (or placeholder) currently registered under key
